@@ -419,14 +419,13 @@ Proof.
                  | apply opn_chan_mark_le; exact Ho ].
 Qed.
 
-(* the handler's own object: unless a PAYLOAD arrives for a channel whose receive direction is already closed,
-   at most one signal is delivered, none if the object is closed, and a terminal one closes it *)
+(* the handler's own object: at most one signal is delivered, none if the object is closed (a PAYLOAD for a channel
+   whose receive direction is closed is dropped), and a terminal one closes it *)
 Lemma handler_frame_sigs_own e oid o f u : Inv e -> nth_error (objs e) oid = Some o -> reachb e oid = true ->
-  is_payload f && (is_chan (o_kind o) && o_recv o) = false ->
   (length (dsigs oid (snd (fst (handler_frame e oid o f u)))) <= opn e oid)%nat /\
   (tcount oid (snd (fst (handler_frame e oid o f u))) + opn (fst (fst (handler_frame e oid o f u))) oid <= opn e oid)%nat.
 Proof.
-  intros I Ho Hr Hl. assert (oid < length (objs e))%nat as Hlen by (apply nth_error_Some; congruence).
+  intros I Ho Hr. assert (oid < length (objs e))%nat as Hlen by (apply nth_error_Some; congruence).
   rewrite (opn_reach e oid o Ho Hr).
   assert (forall o', o_sid o' = o_sid o -> opn (finish (set_obj e oid o') (o_sid o)) oid = 0%nat) as F1.
   { intros o' Hs. apply (opn_finish_own' _ oid o'); [eapply inv_set_obj; [exact I|exact Ho|exact Hs]|cbn; apply nth_oset_same; exact Hlen|exact Hs]. }
@@ -440,7 +439,7 @@ Proof.
     by (intros s r; rewrite <- (opn_reach e oid o Ho Hr); apply opn_chan_mark_le; exact Ho).
   assert (opn e oid = if is_chan (o_kind o) && o_recv o then 0 else 1)%nat as F6 by (apply opn_reach; assumption).
   unfold handler_frame, tcount.
-  destruct (o_kind o) eqn:Ek; cbn [is_chan andb] in *; destruct f; cbn [is_payload andb] in Hl; cbn [fst snd dsigs filter length];
+  destruct (o_kind o) eqn:Ek; cbn [is_chan andb] in *; destruct f; cbn [fst snd dsigs filter length];
     try (split; lia);
     repeat match goal with
            | |- context [match o_fut o with _ => _ end] => destruct (o_fut o) eqn:?
@@ -496,15 +495,6 @@ Proof.
                        repeat first [ exact Hn | apply N | rewrite chan_mark_length | exact Hl ] ].
 Qed.
 
-(* the one input excluded below: a PAYLOAD dispatched to a channel whose receive direction is already closed
-   (a peer that keeps sending after its terminal frame, or elements in flight after a local cancel) *)
-Definition late_d (e : ep) (g : frame) (oid : nat) : bool :=
-  match g with
-  | FPayload sid _ _ _ _ _ _ =>
-      match tget (table e) sid with Some j => Nat.eqb j oid && closedb e oid | None => false end
-  | _ => false
-  end.
-
 Lemma tget_reachb e sid oid : tget (table e) sid = Some oid -> reachb e oid = true.
 Proof.
   unfold reachb. induction (table e) as [|[k v] t IH]; cbn [tget existsb snd]; [discriminate|].
@@ -517,11 +507,11 @@ Proof. rewrite dsigs_app. cbn [dsigs]. apply app_nil_r. Qed.
 Lemma tcount_enq oid effs g : tcount oid (effs ++ [XEnq g]) = tcount oid effs.
 Proof. unfold tcount. rewrite dsigs_enq. reflexivity. Qed.
 
-Lemma recv_dispatch_sigs e g o u oid : Inv e -> late_d e g oid = false ->
+Lemma recv_dispatch_sigs e g o u oid : Inv e ->
   (length (dsigs oid (snd (recv_dispatch e g o u))) <= opn e oid)%nat /\
   (tcount oid (snd (recv_dispatch e g o u)) + opn (fst (recv_dispatch e g o u)) oid <= opn e oid)%nat.
 Proof.
-  intros I Hl. unfold recv_dispatch, raised_error.
+  intros I. unfold recv_dispatch, raised_error.
   destruct ((fsid g =? CONNECTION_STREAM_ID) || is_request_type g).
   - unfold tcount.
     destruct g; cbn [fst snd dsigs filter length]; try (split; lia);
@@ -534,10 +524,7 @@ Proof.
     destruct (inv_WF e I _ _ Et) as (ob & Hob & Hs). rewrite Hob.
     destruct (Nat.eq_dec j oid) as [E|Hne].
     + subst j. pose proof (tget_reachb e _ _ Et) as Hr.
-      assert (is_payload g && (is_chan (o_kind ob) && o_recv ob) = false) as Hp.
-      { destruct g; try reflexivity. cbn [is_payload andb]. cbn [late_d fsid] in *. rewrite Et, Nat.eqb_refl in Hl.
-        cbn [andb] in Hl. unfold closedb in Hl. rewrite Hob, Hr in Hl. exact Hl. }
-      pose proof (handler_frame_sigs_own e oid ob g u I Hob Hr Hp) as H.
+      pose proof (handler_frame_sigs_own e oid ob g u I Hob Hr) as H.
       destruct (handler_frame e oid ob g u) as [[e' effs] raised]. cbn [fst snd] in *.
       destruct raised; rewrite ?dsigs_enq, ?tcount_enq, ?app_nil_r; exact H.
     + pose proof (handler_frame_dsigs_other e j ob g u oid Hne) as H1.
@@ -546,22 +533,11 @@ Proof.
       unfold tcount. destruct raised; rewrite ?dsigs_enq, ?app_nil_r, H1; cbn [filter length]; split; lia.
 Qed.
 
-(* the frame that reaches dispatch when f is received: f itself, or what reassembly hands over *)
-Definition dispatched (e : ep) (f : frame) : option frame :=
-  if is_fragmentable f then match snd (cache_append (cachek e) f) with AFrame g => Some g | _ => None end
-  else Some f.
-
-Definition late (e : ep) (l : label) (oid : nat) : bool :=
-  match l with
-  | LRecv f _ => match dispatched e f with Some g => late_d e g oid | None => false end
-  | _ => false
-  end.
-
-Lemma recv_frame_sigs e f o u oid : Inv e -> late e (LRecv f o) oid = false ->
+Lemma recv_frame_sigs e f o u oid : Inv e ->
   (length (dsigs oid (snd (recv_frame e f o u))) <= opn e oid)%nat /\
   (tcount oid (snd (recv_frame e f o u)) + opn (fst (recv_frame e f o u)) oid <= opn e oid)%nat.
 Proof.
-  intros I Hl. unfold late, dispatched in Hl. unfold recv_frame.
+  intros I. unfold recv_frame.
   destruct (stray_fragment e f); [unfold tcount; cbn [fst snd dsigs filter length]; split; lia|].
   destruct (is_fragmentable f); [|apply recv_dispatch_sigs; assumption].
   pose proof (cache_append_spec (cachek e) f (inv_cwf e I)) as [Hc _].
@@ -570,7 +546,7 @@ Proof.
   assert (Inv e1) as I1 by (destruct I as [K O C]; constructor; assumption).
   assert (opn e1 oid = opn e oid) as Ho by reflexivity.
   destruct a; unfold raised_error, tcount; cbn [fst snd dsigs filter length]; try (split; lia).
-  rewrite <- Ho. apply (recv_dispatch_sigs e1 f0 o u oid I1). exact Hl.
+  rewrite <- Ho. apply (recv_dispatch_sigs e1 f0 o u oid I1).
 Qed.
 
 (* ---------- the close sweep ---------- *)
@@ -599,7 +575,7 @@ Proof.
     pose proof (handler_frame_error_terminal e j ob sid EC_CONNECTION_ERROR [] true oid) as Ht.
     pose proof (inv_handler_frame e j ob (f_error sid EC_CONNECTION_ERROR []) true I Ho) as Ih.
     destruct (Nat.eq_dec j oid) as [E|Hne].
-    - subst j. pose proof (handler_frame_sigs_own e oid ob (f_error sid EC_CONNECTION_ERROR []) true I Ho (tget_reachb e _ _ Et) eq_refl) as [_ H].
+    - subst j. pose proof (handler_frame_sigs_own e oid ob (f_error sid EC_CONNECTION_ERROR []) true I Ho (tget_reachb e _ _ Et)) as [_ H].
       destruct (handler_frame e oid ob _ true) as [[e' effs] r]. cbn [fst snd] in *. split; [lia|exact Ih].
     - pose proof (handler_frame_dsigs_other e j ob (f_error sid EC_CONNECTION_ERROR []) true oid Hne) as Hd.
       pose proof (handler_frame_opn_other e j ob (f_error sid EC_CONNECTION_ERROR []) true oid Hne Ho) as Hp.
@@ -659,11 +635,11 @@ Proof.
 Qed.
 
 (* ---------- one atomic section ---------- *)
-Theorem step_sigs u e l oid : Inv e -> late e l oid = false ->
+Theorem step_sigs u e l oid : Inv e ->
   (length (dsigs oid (snd (ep_step u e l))) <= opn e oid)%nat /\
   (tcount oid (snd (ep_step u e l)) + opn (fst (ep_step u e l)) oid <= opn e oid)%nat.
 Proof.
-  intros I Hl.
+  intros I.
   assert (forall e' effs, dsigs oid effs = [] -> (opn e' oid <= opn e oid)%nat ->
             (length (dsigs oid (snd (e', effs))) <= opn e oid)%nat /\ (tcount oid (snd (e', effs)) + opn (fst (e', effs)) oid <= opn e oid)%nat) as Q.
   { intros e' effs Hd Ho. unfold tcount. cbn [fst snd]. rewrite Hd. cbn [filter length]. split; lia. }
@@ -711,34 +687,28 @@ Proof.
 Qed.
 
 (* ---------- whole histories ---------- *)
-Fixpoint no_late (e : ep) (ls : list (label * bool)) (oid : nat) : Prop :=
-  match ls with
-  | [] => True
-  | (l, u) :: r => late e l oid = false /\ no_late (fst (ep_step u e l)) r oid
-  end.
-
 (* at most one terminal signal, and nothing after it *)
 Definition ok_sigs (l : list signal) : Prop :=
   forall pre s post, l = pre ++ s :: post -> is_term s = true -> post = [].
 
-Lemma run_closed_silent : forall ls e oid, Inv e -> no_late e ls oid -> opn e oid = 0%nat ->
+Lemma run_closed_silent : forall ls e oid, Inv e -> opn e oid = 0%nat ->
   dsigs oid (concat (snd (ep_run e ls))) = [].
 Proof.
-  induction ls as [|[l u] r IH]; intros e oid I Hn Hz; cbn [ep_run]; [reflexivity|].
-  destruct Hn as [Hl Hn]. pose proof (step_sigs u e l oid I Hl) as [H1 H2]. pose proof (inv_step u e l I) as I1.
+  induction ls as [|[l u] r IH]; intros e oid I Hz; cbn [ep_run]; [reflexivity|].
+  pose proof (step_sigs u e l oid I) as [H1 H2]. pose proof (inv_step u e l I) as I1.
   destruct (ep_step u e l) as [e1 x]. cbn [fst snd] in *.
-  specialize (IH e1 oid I1 Hn). destruct (ep_run e1 r) as [e2 xs]. cbn [fst snd concat] in *.
+  specialize (IH e1 oid I1). destruct (ep_run e1 r) as [e2 xs]. cbn [fst snd concat] in *.
   rewrite dsigs_app. rewrite IH by lia. destruct (dsigs oid x); [reflexivity|cbn [length] in H1; lia].
 Qed.
 
-Theorem run_sigs_ok : forall ls e oid, Inv e -> no_late e ls oid -> ok_sigs (dsigs oid (concat (snd (ep_run e ls)))).
+Theorem run_sigs_ok : forall ls e oid, Inv e -> ok_sigs (dsigs oid (concat (snd (ep_run e ls)))).
 Proof.
-  induction ls as [|[l u] r IH]; intros e oid I Hn; cbn [ep_run].
+  induction ls as [|[l u] r IH]; intros e oid I; cbn [ep_run].
   - intros pre s post H. destruct pre; discriminate.
-  - destruct Hn as [Hl Hn]. pose proof (step_sigs u e l oid I Hl) as [H1 H2]. pose proof (inv_step u e l I) as I1.
-    pose proof (run_closed_silent r (fst (ep_step u e l)) oid I1 Hn) as Hs.
+  - pose proof (step_sigs u e l oid I) as [H1 H2]. pose proof (inv_step u e l I) as I1.
+    pose proof (run_closed_silent r (fst (ep_step u e l)) oid I1) as Hs.
     destruct (ep_step u e l) as [e1 x]. cbn [fst snd] in *.
-    specialize (IH e1 oid I1 Hn). destruct (ep_run e1 r) as [e2 xs]. cbn [fst snd concat] in *.
+    specialize (IH e1 oid I1). destruct (ep_run e1 r) as [e2 xs]. cbn [fst snd concat] in *.
     rewrite dsigs_app. unfold tcount in H2. pose proof (opn_le1 e oid) as Hle.
     destruct (dsigs oid x) as [|s [|s' t]]; cbn [length] in H1; [exact IH| |lia].
     cbn [app filter] in *. intros pre s0 post Heq Hterm. destruct pre as [|p pre].
@@ -746,8 +716,8 @@ Proof.
     + cbn [app] in Heq. injection Heq as <- Heq. exact (IH pre s0 post Heq Hterm).
 Qed.
 
-(* C07, second sentence, for every history in which no PAYLOAD reaches a channel whose receive direction is closed *)
-Theorem subscriber_terminal_at_most_once first ls oid : no_late (ep_init first) ls oid ->
+(* C07, second sentence, for every history whatsoever *)
+Theorem subscriber_terminal_at_most_once first ls oid :
   ok_sigs (dsigs oid (concat (snd (ep_run (ep_init first) ls)))).
 Proof. apply run_sigs_ok. apply inv_init. Qed.
 
@@ -764,8 +734,8 @@ Example sigs_example2 :
   let ls := [(LReqChannel [] [x01] true, true); (LSubscribe 0 true [] [x01], true);
              (LRecv (FPayload 1 false false false true [] [x02]) ONone, true);
              (LRecv (FPayload 1 false false true false [] []) ONone, true); (LClose, true)] in
-  no_late (ep_init 1) ls 0 /\ dsigs 0 (concat (snd (ep_run (ep_init 1) ls))) = [SNext [] [x02] false; SComplete].
-Proof. vm_compute. repeat split. Qed.
+  dsigs 0 (concat (snd (ep_run (ep_init 1) ls))) = [SNext [] [x02] false; SComplete].
+Proof. vm_compute. reflexivity. Qed.
 
 (* ---------- C09: cancellation ---------- *)
 (* a frame for a stream that is gone is dropped without a trace (elements in flight after a cancel) *)
@@ -784,10 +754,10 @@ Qed.
    subscriber hears nothing more *)
 Theorem rs_cancel_silences u e oid o : Inv e -> nth_error (objs e) oid = Some o -> o_kind o = KRSReq ->
   ep_step u e (LCancel oid) = (finish e (o_sid o), [XEnq (f_cancel (o_sid o))]) /\
-  forall ls, no_late (finish e (o_sid o)) ls oid -> dsigs oid (concat (snd (ep_run (finish e (o_sid o)) ls))) = [].
+  forall ls, dsigs oid (concat (snd (ep_run (finish e (o_sid o)) ls))) = [].
 Proof.
   intros I Ho Hk. split; [apply cancel_rs_requester; assumption|].
-  intros ls Hn. apply run_closed_silent; [apply inv_finish; exact I|exact Hn|apply opn_finish_own; assumption].
+  intros ls. apply run_closed_silent; [apply inv_finish; exact I|apply opn_finish_own; assumption].
 Qed.
 
 (* cancelling a request-response: the awaitable is never resolved by the library afterwards; the callback sends
@@ -838,9 +808,13 @@ Proof.
     intros j Hj. apply chan_mark_objs. exact Hj.
 Qed.
 
-(* REFUTED for a channel whose own sending direction is still open (finding KF-C09-channel-cancel-inflight, part of
-   F16): cancel() marks only the receiving direction, the entry stays, and an element in flight is still delivered *)
-Lemma channel_cancel_inflight_delivered :
-  snd (recv_frame (fst (ep_step true f16_ep (LCancel 0))) (FPayload 1 false false false true [] [x07]) ONone true)
-  = [XCb 0 (SNext [] [x07] false)].
+(* a channel: after cancel() elements still in flight are dropped even though the stream stays registered while the
+   own sending direction is open (the defect KF-C09-channel-cancel-inflight, repaired in the repository) *)
+Lemma channel_cancel_inflight_dropped :
+  snd (recv_frame (fst (ep_step true f16_ep (LCancel 0))) (FPayload 1 false false false true [] [x07]) ONone true) = [].
 Proof. vm_compute. reflexivity. Qed.
+
+(* ... for every channel object, in every state: once the receive direction is closed no PAYLOAD signals anything *)
+Theorem channel_closed_payload_silent e oid o sid ign fo co nx md d u : is_chan (o_kind o) = true -> o_recv o = true ->
+  handler_frame e oid o (FPayload sid ign fo co nx md d) u = (e, [], false).
+Proof. intros Hk Hr. unfold handler_frame. destruct (o_kind o); try discriminate Hk; rewrite Hr; reflexivity. Qed.
